@@ -1,4 +1,4 @@
-(** * Literal typing of the streaming Turtle reader (C07, second half of T4) *)
+(** * String lemmas for the literal typing of the streaming Turtle reader (C07) *)
 From Coq Require Import List Ascii String ZArith Bool Lia.
 From Shexer Require Import Lib.PyStr Lib.Dict Gen.Consts Spec.Rdf Spec.TtlSyntax Spec.TtlDomain Model.TtlReader
   Proofs.TtlProofs Proofs.TtlExpand.
@@ -175,52 +175,11 @@ Lemma string_type_eq : c_STRING_TYPE = xsd_string. Proof. reflexivity. Qed.
 Lemma lang_type_eq : c_LANG_STRING_TYPE = rdf_langString. Proof. reflexivity. Qed.
 Lemma integer_type_eq : c_INTEGER_TYPE = xsd_integer. Proof. reflexivity. Qed.
 
-Lemma rc_lit_marker e lex sfx :
-  rc_free (rc_lit e lex sfx) = true -> contains (qc :: cc) (qc :: lex) = false.
-Proof.
-  unfold rc_lit. intros H.
-  destruct (contains (Str """^^") (Str """" ++ lex)) eqn:E; [cbn in H; discriminate|]. exact E.
-Qed.
-
-Lemma plain_type e lex b :
-  rc_free (rc_lit e lex LPlain) = true ->
-  decide_literal_type (render_obj (OLit lex LPlain)) b = Ok xsd_string.
-Proof.
-  intros Hrc. pose proof (rc_lit_marker _ _ _ Hrc) as Hm.
-  change (render_obj (OLit lex LPlain)) with ((qc :: lex) ++ qc :: []).
-  unfold decide_literal_type.
-  assert (Hq : rfind_nat s_quote ((qc :: lex) ++ qc :: []) = Some (List.length (qc :: lex))).
-  { apply (rfind_single_app qc (qc :: lex) []). constructor. }
-  rewrite (arroba_false _ _ Hq).
-  2:{ intros j Hj. apply rfind_single_bound in Hj. rewrite app_length in Hj. cbn [List.length] in *. lia. }
-  rewrite typed_marker_eq, (no_typed_marker lex [] Hm) by (constructor || reflexivity).
-  reflexivity.
-Qed.
-
 Lemma tag_chars t : tag_wf t = true ->
   Forall (fun c => Ascii.eqb qc c = false) t /\ Forall (fun c => Ascii.eqb (chr "@") c = false) t.
 Proof.
   unfold tag_wf. rewrite !andb_true_iff. intros ((((_ & _) & _) & H) & _).
   split; apply (forallb_Forall_neq _ _ _ H); reflexivity.
-Qed.
-
-Lemma lang_type e lex t b :
-  rc_free (rc_lit e lex (LLang t)) = true -> tag_wf t = true ->
-  decide_literal_type (render_obj (OLit lex (LLang t))) b = Ok rdf_langString.
-Proof.
-  intros Hrc Ht. destruct (tag_chars t Ht) as (Hnq & Hna).
-  change (render_obj (OLit lex (LLang t))) with ((qc :: lex) ++ qc :: chr "@" :: t).
-  set (tok := (qc :: lex) ++ qc :: chr "@" :: t).
-  assert (Hq : rfind_nat s_quote tok = Some (List.length (qc :: lex))).
-  { apply (rfind_single_app qc (qc :: lex) (chr "@" :: t)). constructor; [reflexivity | exact Hnq]. }
-  assert (Ha : rfind_nat c_lang_marker tok = Some (List.length ((qc :: lex) ++ [qc]))).
-  { unfold tok. replace ((qc :: lex) ++ qc :: chr "@" :: t) with (((qc :: lex) ++ [qc]) ++ chr "@" :: t)
-      by (rewrite <- app_assoc; reflexivity).
-    apply (rfind_single_app (chr "@") ((qc :: lex) ++ [qc]) t Hna). }
-  unfold decide_literal_type, arroba_after_last_quotes. rewrite !rfind_unfold, Hq, Ha. cbn [rfindZ].
-  replace (Z.of_nat (List.length (qc :: lex)) <? Z.of_nat (List.length ((qc :: lex) ++ [qc]))) with true.
-  - reflexivity.
-  - symmetry. apply Z.ltb_lt. rewrite app_length. cbn [List.length]. lia.
 Qed.
 
 (** ** typed literals *)
@@ -277,255 +236,3 @@ Proof.
 Qed.
 
 (** the model's prefix table and the spec's list of wired prefixes agree *)
-Lemma dt_table_link tok :
-  dt_by_prefix ttl_dt_prefix_table tok =
-  match first_wired wired tok with
-  | Some (q, ns) => Some (ns ++ slice_from tok (find (q ++ Str ":") tok + len (q ++ Str ":")))
-  | None => None
-  end.
-Proof.
-  unfold ttl_dt_prefix_table, wired. cbn [dt_by_prefix first_wired].
-  change (Str "xsd" ++ Str ":") with (Str "xsd:"). change (Str "rdf" ++ Str ":") with (Str "rdf:").
-  change (Str "dt" ++ Str ":") with (Str "dt:"). change (Str "geo" ++ Str ":") with (Str "geo:").
-  destruct (contains (Str "xsd:") tok); [reflexivity|].
-  destruct (contains (Str "rdf:") tok); [reflexivity|].
-  destruct (contains (Str "dt:") tok); [reflexivity|].
-  destruct (contains (Str "geo:") tok); reflexivity.
-Qed.
-
-Lemma ns_link tok :
-  existsb (fun ns => contains ns tok) ttl_dt_namespaces = existsb (fun w => contains (snd w) tok) wired.
-Proof. reflexivity. Qed.
-
-(** common part: the token is recognised as typed, the marker is found at the closing quote *)
-Section Typed.
-  Variables (lex R : str).
-  Hypothesis Hm : contains (qc :: cc) (qc :: lex) = false.
-  Hypothesis HRq : Forall (fun c => Ascii.eqb qc c = false) R.
-  Hypothesis HRa : Forall (fun c => Ascii.eqb (chr "@") c = false) R.
-
-  Definition ttok : str := (qc :: lex) ++ (qc :: cc) ++ R.
-
-  Lemma typed_arroba : arroba_after_last_quotes ttok = false.
-  Proof.
-    assert (Hq : rfind_nat s_quote ttok = Some (List.length (qc :: lex))).
-    { apply (rfind_single_app qc (qc :: lex) (cc ++ R)). apply Forall_app_intro; [repeat constructor | exact HRq]. }
-    apply (arroba_false _ _ Hq). intros j Hj.
-    unfold ttok in Hj. change c_lang_marker with [chr "@"] in Hj.
-    replace ((qc :: lex) ++ (qc :: cc) ++ R) with ((qc :: lex) ++ (qc :: cc ++ R)) in Hj by reflexivity.
-    rewrite (rfind_single_app_absent (chr "@") (qc :: lex) (qc :: cc ++ R)) in Hj.
-    - apply rfind_single_bound in Hj. lia.
-    - constructor; [reflexivity|]. apply Forall_app_intro; [repeat constructor | exact HRa].
-  Qed.
-
-  Lemma typed_contains : contains ttl_typed_marker ttok = true.
-  Proof. rewrite typed_marker_eq. apply contains_app. Qed.
-
-  Lemma typed_find : find ttl_typed_marker ttok = len (qc :: lex).
-  Proof.
-    rewrite typed_marker_eq. unfold find, ttok.
-    rewrite (find_nat_app_first (qc :: cc) ((qc :: cc) ++ R) (qc :: lex)); [reflexivity| |apply prefixb_app].
-    intros A1 A2 HA Hne. destruct A2 as [|a A3]; [contradiction|].
-    cbn [app prefixb]. destruct (Ascii.eqb qc a) eqn:Ea; [|reflexivity]. cbn [andb].
-    apply Ascii.eqb_eq in Ea. subst a.
-    apply contains_false_find in Hm.
-    pose proof (proj1 (find_none_decomp qc cc (qc :: lex)) Hm A1 A3 HA) as H0.
-    destruct (prefixb cc (A3 ++ qc :: cc ++ R)) eqn:E; [|reflexivity].
-    apply prefixb_app_excl in E; [congruence | repeat constructor | discriminate].
-  Qed.
-End Typed.
-
-Lemma render_typed lex r : render_obj (OLit lex (LTyped r)) = ttok lex (render_ref r).
-Proof. reflexivity. Qed.
-
-(** peel the root-cause list of a typed literal: leaves the case analysis on the datatype form *)
-Ltac peel_rc_lit Hrc E1 E2 :=
-  unfold rc_lit in Hrc;
-  match type of Hrc with context [contains (Str """^^") ?x] => destruct (contains (Str """^^") x) eqn:E1; [cbn in Hrc; discriminate|] end;
-  match type of Hrc with context [contains [ascii_of_nat 9] ?x || ?y] => destruct (contains [ascii_of_nat 9] x || y); [cbn in Hrc; discriminate|] end;
-  cbn [when app] in Hrc;
-  match type of Hrc with context [contains (Str "@") ?x] => destruct (contains (Str "@") x) eqn:E2; [cbn in Hrc; discriminate|] end;
-  cbn [when app] in Hrc.
-
-Lemma typed_pre e lex p l u b :
-  ref_wf (IPre p l) = true -> rc_free (rc_lit e lex (LTyped (IPre p l))) = true ->
-  resolve_ref e (IPre p l) = Some u ->
-  decide_literal_type (render_obj (OLit lex (LTyped (IPre p l)))) b = Ok u.
-Proof.
-  intros Hwf Hrc Hu. peel_rc_lit Hrc Hm Hat.
-  pose proof (ref_no_quote _ Hwf) as HRq. pose proof (contains_single_false _ _ Hat) as HRa.
-  cbn [resolve_ref] in Hu. destruct (lookup p (e_prefixes e)) as [ns'|] eqn:El; [|discriminate]. inversion Hu; subst u.
-  set (tok := render_obj (OLit lex (LTyped (IPre p l)))) in *.
-  destruct (first_wired wired tok) as [(q, ns)|] eqn:Ew; [|discriminate].
-  assert (Hc : str_eqb p q && (find (q ++ Str ":") tok =? len lex + 4) && str_eqb ns ns' = true).
-  { destruct (str_eqb p q && (find (q ++ Str ":") tok =? len lex + 4) && str_eqb ns ns'); [reflexivity | discriminate]. }
-  rewrite !andb_true_iff in Hc. destruct Hc as ((Hp & Hf) & Hns).
-  apply str_eqb_eq in Hp. apply str_eqb_eq in Hns. apply Z.eqb_eq in Hf. subst q ns'.
-  unfold decide_literal_type. unfold tok at 1 2. rewrite render_typed.
-  rewrite (typed_arroba lex _ HRq HRa), (typed_contains lex _). cbn [negb].
-  rewrite dt_table_link, Ew, Hf.
-  f_equal. f_equal.
-  assert (Et : tok = ((qc :: lex) ++ (qc :: cc) ++ p ++ Str ":") ++ l).
-  { unfold tok. rewrite render_typed. unfold ttok. cbn [render_ref]. rewrite <- !app_assoc. reflexivity. }
-  rewrite Et.
-  replace (len lex + 4 + len (p ++ Str ":")) with (len ((qc :: lex) ++ (qc :: cc) ++ p ++ Str ":")).
-  - apply slice_from_app.
-  - rewrite !len_app, !len_cons. change (len cc) with 2. lia.
-Qed.
-
-(** datatype written [<x>]: the candidate cut out of the token is [x] *)
-Lemma typed_cand lex x :
-  contains (qc :: cc) (qc :: lex) = false ->
-  Forall (fun c => Ascii.eqb qc c = false) (s_lt ++ x ++ s_gt) ->
-  let tok := ttok lex (s_lt ++ x ++ s_gt) in
-  slice tok (find ttl_typed_marker tok + ttl_dt_iri_offset) ttl_dt_iri_end = x /\
-  suffixb ttl_dt_iri_close (strip tok) = true.
-Proof.
-  intros Hm HRq tok. split.
-  - unfold tok. rewrite (typed_find lex _ Hm). change ttl_dt_iri_offset with 4. change ttl_dt_iri_end with (-1).
-    assert (Et : ttok lex (s_lt ++ x ++ s_gt) = ((qc :: lex) ++ (qc :: cc) ++ s_lt) ++ x ++ [chr ">"]).
-    { unfold ttok. rewrite <- !app_assoc. reflexivity. }
-    rewrite Et.
-    replace (len (qc :: lex) + 4) with (len ((qc :: lex) ++ (qc :: cc) ++ s_lt)).
-    + apply slice_mid.
-    + rewrite !len_app, !len_cons. change (len cc) with 2. change (len s_lt) with 1. lia.
-  - assert (Et : tok = qc :: (lex ++ (qc :: cc) ++ s_lt ++ x) ++ [chr ">"]).
-    { unfold tok, ttok. cbn [app]. f_equal. rewrite <- !app_assoc. reflexivity. }
-    rewrite Et, strip_ends by reflexivity.
-    change (qc :: (lex ++ (qc :: cc) ++ s_lt ++ x) ++ [chr ">"]) with ((qc :: (lex ++ (qc :: cc) ++ s_lt ++ x)) ++ [chr ">"]).
-    change ttl_dt_iri_close with [chr ">"]. apply suffixb_snoc.
-Qed.
-
-Lemma typed_abs e s lex i u :
-  env_match e s -> ref_wf (IAbs i) = true -> rc_free (rc_lit e lex (LTyped (IAbs i))) = true ->
-  resolve_ref e (IAbs i) = Some u ->
-  decide_literal_type (render_obj (OLit lex (LTyped (IAbs i)))) (base s) = Ok u.
-Proof.
-  intros (Hb & _ & _) Hwf Hrc Hu. peel_rc_lit Hrc Hm Hat.
-  pose proof (ref_no_quote _ Hwf) as HRq. pose proof (contains_single_false _ _ Hat) as HRa.
-  cbn [resolve_ref] in Hu. inversion Hu; subst u.
-  set (tok := render_obj (OLit lex (LTyped (IAbs i)))) in *.
-  destruct (first_wired wired tok) as [(q, ns)|] eqn:Ew; [discriminate|].
-  destruct (typed_cand lex i Hm HRq) as (Hcand & Hsuf).
-  unfold decide_literal_type. unfold tok at 1 2. rewrite render_typed.
-  rewrite (typed_arroba lex _ HRq HRa), (typed_contains lex _). cbn [negb].
-  rewrite dt_table_link, Ew.
-  change (ttok lex (s_lt ++ i ++ s_gt)) with tok in Hcand, Hsuf. rewrite Hcand, Hsuf, ns_link.
-  destruct (existsb (fun w => contains (snd w) tok) wired) eqn:Ens; [reflexivity|].
-  rewrite Hb. destruct (e_base e) as [bs|]; [|reflexivity].
-  unfold is_absolute. change ttl_scheme_test_datatypes with true. cbv iota.
-  cbn [ref_wf] in Hwf. apply andb_true_iff in Hwf. destruct Hwf as (_ & Hsch).
-  rewrite <- (app_nil_r i) at 1. rewrite (has_scheme_model i [] Hsch). reflexivity.
-Qed.
-
-Lemma typed_rel e s lex x u :
-  env_match e s -> ref_wf (IRel x) = true -> rc_free (rc_lit e lex (LTyped (IRel x))) = true ->
-  resolve_ref e (IRel x) = Some u ->
-  decide_literal_type (render_obj (OLit lex (LTyped (IRel x)))) (base s) = Ok u.
-Proof.
-  intros (Hb & _ & _) Hwf Hrc Hu. peel_rc_lit Hrc Hm Hat.
-  pose proof (ref_no_quote _ Hwf) as HRq. pose proof (contains_single_false _ _ Hat) as HRa.
-  cbn [resolve_ref] in Hu. destruct (e_base e) as [bs|] eqn:Eb; [|discriminate].
-  set (tok := render_obj (OLit lex (LTyped (IRel x)))) in *.
-  destruct (first_wired wired tok) as [(q, ns)|] eqn:Ew; [discriminate|].
-  destruct (existsb (fun w => contains (snd w) tok) wired) eqn:Ens; [cbn in Hrc; discriminate|].
-  cbn [when app] in Hrc. rewrite Hu in Hrc.
-  destruct (str_eqb u (bs ++ x)) eqn:Eu; [|cbn in Hrc; discriminate]. apply str_eqb_eq in Eu. subst u.
-  assert (Eh : starts_with_scheme x = false).
-  { apply no_scheme_no_colon. apply contains_colon_false. cbn [ref_wf] in Hwf. apply andb_true_iff in Hwf.
-    destruct Hwf as (_ & Hnc). apply negb_true_iff in Hnc. exact Hnc. }
-  destruct (typed_cand lex x Hm HRq) as (Hcand & Hsuf).
-  unfold decide_literal_type. unfold tok at 1 2. rewrite render_typed.
-  rewrite (typed_arroba lex _ HRq HRa), (typed_contains lex _). cbn [negb].
-  rewrite dt_table_link, Ew.
-  change (ttok lex (s_lt ++ x ++ s_gt)) with tok in Hcand, Hsuf. rewrite Hcand, Hsuf, ns_link, Ens.
-  rewrite Hb. unfold is_absolute. change ttl_scheme_test_datatypes with true. cbv iota. rewrite Eh. reflexivity.
-Qed.
-
-(** ** string literals as a whole *)
-
-Definition okL (e : env) (lex : str) (sfx : lit_suffix) : bool :=
-  obj_wf (OLit lex sfx) && rc_free (rc_lit e lex sfx).
-
-Theorem literal_type e s lex sfx o :
-  env_match e s -> okL e lex sfx = true -> sem_obj e (OLit lex sfx) = Some o ->
-  exists dt, decide_literal_type (render_obj (OLit lex sfx)) (base s) = Ok dt /\ erase_obj o = OL [] dt.
-Proof.
-  intros Hm Hok Hsem. unfold okL in Hok. apply andb_true_iff in Hok. destruct Hok as (Hwf & Hrc).
-  destruct sfx as [|t|r]; cbn [sem_obj obj_wf] in *.
-  - inversion Hsem; subst o. exists xsd_string. split; [apply (plain_type e); exact Hrc | reflexivity].
-  - inversion Hsem; subst o. apply andb_true_iff in Hwf. destruct Hwf as (_ & Ht).
-    exists rdf_langString. split; [apply (lang_type e); assumption | reflexivity].
-  - apply andb_true_iff in Hwf. destruct Hwf as (_ & Hr).
-    destruct (resolve_ref e r) as [u|] eqn:Eu; [|discriminate]. cbn in Hsem. inversion Hsem; subst o.
-    exists u. split; [|reflexivity].
-    destruct r; [eapply typed_abs | eapply typed_rel | eapply typed_pre]; eassumption.
-Qed.
-
-(** ** objects *)
-
-Definition okO (e : env) (x : object) : bool := obj_wf x && rc_free (rc_obj e x).
-
-Lemma lit_tok_head lex sfx : exists t, render_obj (OLit lex sfx) = qc :: t.
-Proof. destruct sfx; eexists; reflexivity. Qed.
-
-Theorem obj_correct e s0 x o s :
-  env_match e s0 -> same_env s s0 -> okO e x = true -> sem_obj e x = Some o ->
-  closure_state (tokO s0 x) = None /\
-  exists raw o', parse_elem s (tokO s0 x) = Ok (Some raw) /\
-                 tune_token (Some raw) (base s) ttl_dflt_allow_untyped_numbers = Ok o' /\
-                 erase_obj o' = erase_obj o.
-Proof.
-  intros Hm Hs Hok Hsem. pose proof (env_match_same _ _ _ Hm Hs) as Hm'.
-  unfold tokO. destruct Hs as (_ & Hbase). rewrite <- Hbase.
-  unfold okO in Hok. apply andb_true_iff in Hok. destruct Hok as (Hwf & Hrc).
-  destruct x as [r|l|lex sfx|d].
-  - (* IRI *)
-    cbn [sem_obj obj_wf rc_obj render_obj] in *.
-    destruct (resolve_ref e r) as [u|] eqn:Eu; [|discriminate]. cbn in Hsem. inversion Hsem; subst o.
-    destruct (expansion_correct e s r u Hm' (okR_of e r Hwf Hrc) Eu) as (A & B).
-    split; [exact A|]. eexists _, _. split; [exact B|]. split; [apply tune_token_iri | reflexivity].
-  - (* blank node *)
-    cbn [sem_obj obj_wf render_obj] in *. inversion Hsem; subst o.
-    destruct (bnode_parse s l (label_nonempty l Hwf)) as (A & B & C).
-    fold (bn_tok l). rewrite A. split; [exact B|]. eexists _, _. split; [exact C|]. split; reflexivity.
-  - (* string literal *)
-    destruct (literal_type e s lex sfx o Hm') as (dt & Hdt & Her); [unfold okL; rewrite Hwf; exact Hrc | exact Hsem |].
-    destruct (lit_tok_head lex sfx) as (t & Et).
-    set (tok := render_obj (OLit lex sfx)) in *.
-    assert (Hv : vtok (base s) tok = tok) by (apply (vtok_not_lt _ _ qc t Et); reflexivity).
-    rewrite Hv. split; [rewrite Et; apply closure_state_first; reflexivity|].
-    exists tok. eexists. split; [|split].
-    + unfold parse_elem. rewrite Et. rewrite (at_idx_at_pos (qc :: t) 0 qc t) by (exists []; split; reflexivity).
-      change (chr_eqb qc ttl_iri_open) with false. cbv iota.
-      assert (E : mem_str (qc :: t) ttl_RDF_TYPE_CONTRACTED = false) by reflexivity. rewrite E. reflexivity.
-    + unfold tune_token.
-      assert (E1 : prefixb s_lt tok = false) by (rewrite Et; reflexivity).
-      assert (E2 : prefixb s_quote tok = true) by (rewrite Et; reflexivity).
-      rewrite E1, E2. unfold parse_literal. rewrite Hdt. cbn [bind fst snd]. reflexivity.
-    + cbn [erase_obj]. symmetry. exact Her.
-  - (* untyped integer *)
-    cbn [sem_obj obj_wf rc_obj render_obj] in *. inversion Hsem; subst o.
-    assert (Hlen : (List.length d <= 300)%nat).
-    { destruct (Nat.ltb 300 (List.length d)) eqn:E; [cbn in Hrc; discriminate|]. apply Nat.ltb_ge in E. exact E. }
-    destruct (int_correct s (base s) d Hwf Hlen) as (A & B & C & o' & D & F).
-    rewrite B. split; [exact A|]. exists d, o'. split; [exact C|]. split; [exact D | exact F].
-Qed.
-
-(** ** T1 + T4: statement groups in a fixed environment, any split into lines *)
-
-Definition group_dom (e : env) (g : group) : bool := group_ok (okS e) (okP e) (okO e) g.
-
-Theorem groups_any_split e s0 gs (ls : list (list atok)) tss s :
-  env_match e s0 -> same_env s s0 -> state s = WS ->
-  forallb (group_dom e) gs = true ->
-  seq_opt (map (sem_group e) gs) = Some tss ->
-  List.concat ls = flat_map group_tokens gs ->
-  exists s' ts', machine_lines (map (map (tok_str s0)) ls) s = (ts', Ok s') /\
-                 map erase_lex ts' = map erase_lex (List.concat tss) /\ same_env s' s0 /\ state s' = WS.
-Proof.
-  intros Hm. apply (state_machine_any_split e s0 (okS e) (okP e) (okO e)).
-  - intros x n s1 H1 H2 H3. apply (subj_correct e s0 x n s1 Hm H1 H2 H3).
-  - intros x p s1 H1 H2 H3. apply (pred_correct e s0 x p s1 Hm H1 H2 H3).
-  - intros x o s1 H1 H2 H3. apply (obj_correct e s0 x o s1 Hm H1 H2 H3).
-Qed.
